@@ -290,23 +290,31 @@ func newSession(snowflakes SnowflakeCollector) (net.PacketConn, *smux.Session, e
 	// stream.
 	dialContext := func(ctx context.Context) (net.PacketConn, error) {
 		log.Printf("redialing on same connection")
-		// Obtain an available WebRTC remote. May block.
-		conn := snowflakes.Pop()
-		if conn == nil {
-			return nil, errors.New("handler: Received invalid Snowflake")
+		for {
+			// Obtain an available WebRTC remote. May block.
+			conn := snowflakes.Pop()
+			if conn == nil {
+				return nil, errors.New("handler: Received invalid Snowflake")
+			}
+			log.Println("---- Handler: snowflake assigned ----")
+			// Send the magic Turbo Tunnel token.
+			_, err := conn.Write(turbotunnel.Token[:])
+			if err == nil {
+				// Send ClientID prefix.
+				_, err = conn.Write(clientID[:])
+			}
+			if err != nil {
+				// This proxy died between Pop and our first bytes. An
+				// error from dialContext would close the
+				// RedialPacketConn, and with it the whole session, for
+				// good; treat it like any other proxy failure instead and
+				// move on to the next snowflake.
+				log.Printf("handler: snowflake failed before first use: %v", err)
+				conn.Close()
+				continue
+			}
+			return newEncapsulationPacketConn(dummyAddr{}, dummyAddr{}, conn), nil
 		}
-		log.Println("---- Handler: snowflake assigned ----")
-		// Send the magic Turbo Tunnel token.
-		_, err := conn.Write(turbotunnel.Token[:])
-		if err != nil {
-			return nil, err
-		}
-		// Send ClientID prefix.
-		_, err = conn.Write(clientID[:])
-		if err != nil {
-			return nil, err
-		}
-		return newEncapsulationPacketConn(dummyAddr{}, dummyAddr{}, conn), nil
 	}
 	pconn := turbotunnel.NewRedialPacketConn(dummyAddr{}, dummyAddr{}, dialContext)
 
